@@ -72,6 +72,8 @@ def run(tier, replay=None):
     # inside one process, liveness under weak fairness), then the unperturbed behaviours replayed on a second build of
     # the harness against log4rs with the background_rotation feature; appends and restarts overlap the rotation
     # thread and the directory is compared at the end of every history (QuiescentWindow)
+    if run.mismatches:
+        return run.finish()      # (what follows replays the same behaviours once more; a violation is already at hand)
     res = C.run_tlc("BackgroundRotation", "MC_BackgroundRotation.cfg" if tier == "quick" else "MC_BackgroundRotation_t.cfg",
                     "c05_bgmodel", workers=4, timeout=1200, coverage=False)
     if res.inv_violated:
@@ -84,7 +86,15 @@ def run(tier, replay=None):
             continue
         wd = os.path.join(C.WORK, "c05_%s_%s" % (tier, i["name"]))
         inp, outp = os.path.join(wd, "cases.ndjson"), os.path.join(wd, "out_bg.ndjson")
-        p = C.run_harness(["rolling", inp, outp], timeout=1500, features=["bgrot"])
+        try:
+            p = C.run_harness(["rolling", inp, outp], timeout=1500, features=["bgrot"])
+        except C.ToolError as ex:
+            if "timeout" not in str(ex):
+                raise
+            # the replay itself bounds every wait (10 s per history): not finishing in 25 minutes is the code under test
+            run.mismatch({"kind": "replay with background rotation did not finish", "build": "background_rotation", "instance": i["name"]},
+                         {"error": str(ex)})
+            continue
         summ = json.loads(p.stdout.strip().splitlines()[-1])
         if not summ.get("background_rotation"):
             raise C.ToolError("the bgrot build does not have background rotation")
